@@ -47,6 +47,15 @@ def main():
                        'reason': 'check not built yet in this round (planned, see DESIGN.md %s)' % TEXT[pid][0]})
             continue
         mod = importlib.import_module('vt.props.' + pid.lower())
+        from vt import liveoracles
+        text, tech = TEXT[pid][1], mod.TECHNIQUE
+        if pid in liveoracles.ORACLES:
+            text += (' The oracle of the property is also evaluated in every state of an explicit-state search over live '
+                     'library objects under all in-place operations of the tool (live-state pool, DESIGN.md §3.7).')
+            tech += '; explicit-state BFS over live objects (live-state pool) with the property oracle in every state'
+        if pid == 'C04':
+            text += (' Every state is also reached on live objects of five provenances along its discovery path '
+                     '(live paths, DESIGN.md §3.7).')
         checks.append({
             'property_id': pid,
             'quick_cmd': './check %s --tier quick' % pid,
@@ -54,9 +63,9 @@ def main():
             'evidence_file': '/verif/evidence/%s.json' % pid,
             'replay_cmd_template': './check --replay {path}',
             'engine': 'vt',
-            'level_claimed': {'category': mod.LEVEL, 'text': TEXT[pid][1], 'design_ref': TEXT[pid][0]},
+            'level_claimed': {'category': mod.LEVEL, 'text': text, 'design_ref': TEXT[pid][0]},
             'level_note': NOTE,
-            'technique': 'model checking: ' + mod.TECHNIQUE,
+            'technique': 'model checking: ' + tech,
         })
     hooks_path = os.path.join(HERE, 'hooks.json')
     commits = json.load(open(hooks_path))['source_commits'] if os.path.exists(hooks_path) else []
